@@ -187,6 +187,30 @@ def shard(ctx, payload):
             do(c, age)
 
 
+def mixed_pass(ctx, rows):
+    """History independence: the shards above visit one row per process, so state leaking from one call into a later
+    one (a cache keyed too coarsely, a shared row edited in place by the ESAA option) would stay invisible.  Here all
+    rows, ages and the ESAA option are interleaved in ONE process in a seeded shuffled order, and a sample is asked again
+    at the very end; every answer is still compared with the exact oracle."""
+    rng = random.Random(derive_seed(ctx.seed, 'C01-mixed'))
+    cases = []
+    for ri, row in enumerate(rows):
+        hi = mark_range(row)
+        for _ in range(250 if ctx.tier == 'thorough' else 120):
+            age = rng.choice([None, None, 0, rng.randrange(1, 35), rng.randrange(35, 111), rng.randrange(35, 111)])
+            cases.append((ri, rng.randrange(0, hi + 1), age))
+    rng.shuffle(cases)
+    again = cases[:3000]
+    for ri, c, age in cases + again:
+        ctx.count()
+        vs, nt, why = examine_point(rows[ri], c, age, ('float',))
+        if vs:
+            for v in vs:
+                v['sig'] = v['sig'] + ['interleaved-rows']
+            ctx.violations(vs)
+    ctx.label('mixed-single-process-pass', len(cases) + len(again))
+
+
 def run(ctx):
     rows = athlon.rows()
     payloads = [(i, 'grid') for i in range(len(rows))] + [(i, 'ages') for i in range(len(rows))]
@@ -199,6 +223,7 @@ def run(ctx):
                 ctx.count()
                 ctx.label('unknown-pair')
                 ctx.violations(examine_unknown(case))
+    mixed_pass(ctx, rows)
     ctx.extra['rows'] = len(rows)
     ctx.exhaustive = False
     if True:
